@@ -16,6 +16,11 @@ Three ties + oracles (all oracles are model-free, on observations of the real co
     merge order parses to the same single complete task per origin tree, in which the remote action is the child
     of the originating action at exactly the reserved position; result / exception of the function pass through
     the preserve_context callable, a second call raises TooManyCalls.
+    Failing destinations: in 40% of the programs a second registered destination raises on chosen calls (in
+    particular on the start / end message of a continued action); the per-side destinations are the healthy view.
+    Oracle there as well: nothing is logged inside an action after its end message, every merge still parses to
+    the same complete tree per origin; failure reports are extra messages of the *enclosing* context (one-message
+    tasks of their own when there is none, as in a fresh thread) - their exact placement is the core-model tie.
     Ties: the sequentialised program on the core model (Driver/Sys.lean: `.serializeAs`/`.continueWith`) emits the
     same messages; the parser model (Driver/C09.lean) yields the same tasks on the same merge orders.
 (c) preserve_context alone: identity without a current action, pass-through, second call; the race on one
@@ -48,7 +53,9 @@ RULE = ("(a) levels: length 0..8 (sometimes 50..300), components drawn from {0, 
         "uuid4-shaped, printable ASCII without '@', a few non-ASCII; malformed level / id strings over the alphabet '/0-9 +-_x@' plus "
         "fixed corner cases. (b) programs: 1-2 origin trees, nested with-blocks (depth <= 3), failing blocks, hand-offs at any point of any "
         "action, chains of <= 4 hops, several ids per action, each used once, bytes/text, continue_task/preserve_context, remote thread "
-        "joined at once or at the very end (real concurrency with the origin), file/list destinations; merge orders: both concatenations, "
+        "joined at once or at the very end (real concurrency with the origin), file/list destinations; 40% of the programs with a second, failing "
+        "destination (mask of 1-3 calls, one of them the end/start message of a continued action or the end of a local one; hand-offs of those "
+        "programs run one after the other so that the mask denotes the same messages in the model run); merge orders: both concatenations, "
         "perfect interleave, 20 (quick) / 500 for the first 80 programs and 12 for the others (thorough) seeded shuffles per program; non-trivial = >= 2 hops or >= 2 ids from one action "
         "or a hand-off below depth 1. (c) schedules of 2-4 threads calling one preserved callable (see _once.py). Distinct by canonical hash.")
 TRUSTED = ["uuid4() does not collide and never contains '@' (it is hex digits and dashes)",
@@ -491,6 +498,18 @@ class RT:
         self.recs = []
         self.mine = {}
         self.keep = []
+        self.deferred = False
+        self.queue = []
+        self.flaky_mask = None
+        self.flaky_calls = []
+
+    def flaky(self, message):
+        """A second registered destination that raises on the calls listed in the program's failure mask (a full
+        disk, a closed socket); the per-side sinks behind `router` are the healthy destination whose view is checked."""
+        k = len(self.flaky_calls)
+        self.flaky_calls.append([message.get("action_type"), message.get("action_status"), message.get("message_type"), message.get("task_level")])
+        if k in self.flaky_mask:
+            raise ValueError("exc7")
 
     def router(self, message):
         side = getattr(self.tls, "side", None)
@@ -638,7 +657,10 @@ def do_handoff(rt, side, s):
                 child.second = "TooManyCalls"
             except BaseException as e:  # noqa
                 child.second = type(e).__name__
-    rt.spawn(child, target, s["join"] == "now")
+    if rt.deferred:
+        rt.queue.append((child, target))  # the id is handed over now, the remote side runs after the origin is done
+    else:
+        rt.spawn(child, target, s["join"] == "now")
 
 
 def run_program(prog):
@@ -647,11 +669,16 @@ def run_program(prog):
     from eliot import _output
 
     rt = RT()
+    rt.deferred = bool(prog.get("deferred"))
     dst = _output.Logger._destinations
     saved = (dst._destinations, dst._any_added, dst._globalFields)
     try:
         dst.__init__()
-        eliot.add_destinations(rt.router)
+        if prog.get("flaky") is not None:
+            rt.flaky_mask = set(prog["flaky"])
+            eliot.add_destinations(rt.router, rt.flaky)
+        else:
+            eliot.add_destinations(rt.router)
         for tree in prog["trees"]:
             side = rt.new_side(tree["side"]["dest"], None)
 
@@ -663,7 +690,10 @@ def run_program(prog):
                     if tree.get("raise") is not None:
                         raise rt.mk_exc(tree["raise"])
 
-            rt.spawn(side, target, False)
+            rt.spawn(side, target, rt.deferred)
+        while rt.queue:
+            child, target = rt.queue.pop(0)
+            rt.spawn(child, target, True)
         i = 0
         while True:
             with rt.lock:
@@ -691,8 +721,40 @@ def run_program(prog):
         r["id"] = list(r["id"]) if isinstance(r["id"], bytes) else (None if r["id"] is None else {"not-bytes": repr(r["id"])[:80]})
         recs.append(r)
     sides = [dict(i=s.i, parent=s.parent, kind=s.kind, raised=s.raised, result=s.result, args=s.args, second=s.second) for s in rt.sides]
-    return dict(logs=logs, recs=recs, sides=sides, errors=rt.errors, stray=len(rt.stray),
+    return dict(logs=logs, recs=recs, sides=sides, errors=rt.errors, stray=len(rt.stray), flaky_calls=rt.flaky_calls,
                 ids=[list(t) if isinstance(t, bytes) else repr(t)[:80] for t in rt.ids])
+
+
+REPORT = "eliot:destination_failure"
+REMOTE_TYPES = ("eliot:remote_task", "app:remote")
+
+
+def make_flaky(prog, rng):
+    """Add the failing-destination dimension: a second destination raises on chosen calls, in particular on the
+    start / end message of a continued action.  The mask is by call number of that destination, so the hand-offs
+    of such a program run one after the other (`deferred`: the remote sides run, each in its own thread, after
+    the origin trees are done, in hand-over order) and the same mask means the same messages in the model run.
+    The call numbers of interest are taken from a run in which the destination does not fail yet."""
+    prog = dict(prog, deferred=True, flaky=[])
+    dry = run_program(prog)
+    calls = dry["flaky_calls"]
+    if not calls:
+        return prog
+    ends = [k for k, c in enumerate(calls) if c[0] in REMOTE_TYPES and c[1] in ("succeeded", "failed")]
+    starts = [k for k, c in enumerate(calls) if c[0] in REMOTE_TYPES and c[1] == "started"]
+    other_ends = [k for k, c in enumerate(calls) if c[0] not in REMOTE_TYPES and c[1] in ("succeeded", "failed")]
+    mask = set()
+    r = rng.random()
+    if ends and r < 0.6:
+        mask.add(rng.choice(ends))
+    elif starts and r < 0.8:
+        mask.add(rng.choice(starts))
+    elif other_ends:
+        mask.add(rng.choice(other_ends))
+    for _ in range(rng.choice([0, 0, 1, 2])):
+        mask.add(rng.randrange(len(calls) + 2))
+    prog["flaky"] = sorted(mask)
+    return prog
 
 
 ID_FORMAT = re.compile(r"\A([^@]*)@(/|(?:/[0-9]+)+)\Z")
@@ -783,6 +845,24 @@ def oracle_program(prog, obs, rng, nshuffles, stats=None):
     if obs["stray"]:
         bad.append(("%d messages were logged outside any side's thread" % obs["stray"], None))
     logs, recs, sides = obs["logs"], obs["recs"], obs["sides"]
+
+    def outside_report(m):
+        # the report of a failed destination, logged with no current action: a one-message task of its own
+        return m.get("message_type") == REPORT and m.get("task_level") == [1]
+
+    nreports = sum(1 for l in logs for m in l if m.get("message_type") == REPORT)
+    if prog.get("flaky") is None and nreports:
+        bad.append(("%d eliot:destination_failure reports although no destination fails" % nreports, dict(kind="unexpected-report")))
+    # --- nothing is logged inside an action after its end message (in the healthy destination's view)
+    for m in (m for l in logs for m in l):
+        if m.get("action_status") in ("succeeded", "failed") and isinstance(m.get("task_level"), list) and m["task_level"]:
+            pre, n = m["task_level"][:-1], m["task_level"][-1]
+            late = [x.get("task_level") for l in logs for x in l if x.get("task_uuid") == m.get("task_uuid") and isinstance(x.get("task_level"), list)
+                    and len(x["task_level"]) > len(pre) and x["task_level"][:len(pre)] == pre and x["task_level"][len(pre)] > n]
+            if late:
+                bad.append(("action %s at %s ends at position %d but messages were logged inside it after its end message: %s" % (
+                    m.get("action_type"), pre, n, late[:3]), dict(kind="after-end", atype=("remote" if m.get("action_type") in REMOTE_TYPES else "local"))))
+                break
     # --- ids pairwise distinct
     ids = [canon(t) for t in obs["ids"]]
     if len(set(ids)) != len(ids):
@@ -791,7 +871,7 @@ def oracle_program(prog, obs, rng, nshuffles, stats=None):
     # --- every remote message carries the origin's uuid and extends the reserved level
     reserved = {}
     for r in recs:
-        ol, rl = logs[r["origin"]], logs[r["remote"]]
+        ol, rl = logs[r["origin"]], [m for m in logs[r["remote"]] if not outside_report(m)]
         if r["origin_start"] >= len(ol):
             bad.append(("the originating action of hand-off %d logged no start message" % r["y"], None))
             continue
@@ -871,8 +951,15 @@ def oracle_program(prog, obs, rng, nshuffles, stats=None):
                 by.setdefault(t.root().task_uuid, []).append(t)
             except Exception:  # noqa
                 by.setdefault(None, []).append(t)
-        if sorted(by, key=repr) != sorted(roots, key=repr) or any(len(v) != 1 for v in by.values()):
-            return [("%s merge: parse_stream yielded %d tasks for %d origin trees" % (oname, len(tasks), len(roots)), dict(kind="task-count"))]
+        extra = [u for u in by if u not in roots]
+        for u in extra:
+            n = by[u][0].root() if len(by[u]) == 1 else None
+            if n is None or isinstance(n, WrittenAction) or getattr(n, "contents", {}).get("message_type") != REPORT:
+                return [("%s merge: parse_stream yielded a task %s that is neither an origin tree nor a failure report" % (oname, u), dict(kind="task-count"))]
+        if sorted((u for u in by if u in roots), key=repr) != sorted(roots, key=repr) or any(len(v) != 1 for v in by.values()) \
+                or len(extra) != sum(1 for m in allm if outside_report(m)):
+            return [("%s merge: parse_stream yielded %d tasks for %d origin trees (+ %d reports outside any action)" % (
+                oname, len(tasks), len(roots), sum(1 for m in allm if outside_report(m))), dict(kind="task-count"))]
         if not all(t.is_complete() for t in tasks):
             return [("%s merge: a task is incomplete although every side's whole log was merged" % oname, dict(kind="incomplete"))]
         cur = {u: v[0] for u, v in by.items()}
@@ -908,22 +995,30 @@ ENV = dict(classes=[dict(id=107, name="ValueError", bases=[], mro=[107, 101, 100
            excs=[dict(id=i, cls=107, str="exc%d" % i) for i in range(8)], keyErrorClass=105, extractors=[], serFail=[], destFail=[])
 
 
-def seq_block(block):
+def seq_continue(s, queue):
+    return seq_with(dict(op="continueWith", y=s["y"], spec=dict(atype=s["atype"] or "eliot:remote_task", fields=[], sers=None)),
+                    s["side"]["body"], s.get("raise"), queue)
+
+
+def seq_block(block, queue=None):
+    """`queue` is None: the remote side runs where the id is taken; else (deferred programs) it is queued."""
     out = []
     for s in block:
         if s["op"] == "log":
             out.append(dict(op="log", ms=dict(mtype="app:m", fields=[["x", {"n": s["n"]}]], sers=None)))
         elif s["op"] == "with":
-            out.append(seq_with(dict(op="with", task=False, spec=dict(atype=s["atype"], fields=[], sers=None)), s["body"], s.get("raise")))
+            out.append(seq_with(dict(op="with", task=False, spec=dict(atype=s["atype"], fields=[], sers=None)), s["body"], s.get("raise"), queue))
         elif s["op"] == "handoff":
             out.append(dict(op="serializeAs", y=s["y"], x=None))
-            out.append(seq_with(dict(op="continueWith", y=s["y"], spec=dict(atype=s["atype"] or "eliot:remote_task", fields=[], sers=None)),
-                                s["side"]["body"], s.get("raise")))
+            if queue is None:
+                out.append(seq_continue(s, None))
+            else:
+                queue.append(s)
     return out
 
 
-def seq_with(stmt, body, rz):
-    b = seq_block(body)
+def seq_with(stmt, body, rz, queue=None):
+    b = seq_block(body, queue)
     if rz is not None:
         b.append(dict(op="raise", e=rz))
         return dict(op="try", body=[dict(stmt, body=b)], handler=[])
@@ -931,10 +1026,17 @@ def seq_with(stmt, body, rz):
 
 
 def sys_case(prog):
-    p = [dict(op="addDests", ds=[0])]
+    """The sequentialised program for the core model.  Deferred programs: the remote sides run at top level (no
+    current action, as in a fresh thread) after the origin trees, in hand-over order; destination 1 fails on the
+    calls of the mask."""
+    flaky = prog.get("flaky")
+    queue = [] if prog.get("deferred") else None
+    p = [dict(op="addDests", ds=[0] if flaky is None else [0, 1])]
     for t in prog["trees"]:
-        p.append(seq_with(dict(op="with", task=False, spec=dict(atype=t["atype"], fields=[], sers=None)), t["side"]["body"], t.get("raise")))
-    return dict(env=ENV, prog=p)
+        p.append(seq_with(dict(op="with", task=False, spec=dict(atype=t["atype"], fields=[], sers=None)), t["side"]["body"], t.get("raise"), queue))
+    while queue:
+        p.append(seq_continue(queue.pop(0), queue))
+    return dict(env=dict(ENV, destFail=[[1, k, 7] for k in (flaky or [])]), prog=p)
 
 
 KEYS = ["task_level", "action_type", "message_type", "action_status", "x", "exception", "reason"]
@@ -980,7 +1082,12 @@ def run_handoffs(ctx):
     rng = ctx.rng("programs")
     mrng = ctx.rng("merges")
     n = ctx.budget(250, 1200)
-    progs = [gen_program(rng, ctx.quick) for _ in range(n)]
+    progs = []
+    for _ in range(n):
+        prog = gen_program(rng, ctx.quick)
+        if rng.random() < 0.4:
+            prog = make_flaky(prog, rng)
+        progs.append(prog)
     observations = []
     stats = {}
     t0 = time.time()
@@ -994,6 +1101,12 @@ def run_handoffs(ctx):
             per_action[(r["origin"], r["origin_start"])] = per_action.get((r["origin"], r["origin_start"]), 0) + 1
         nt = hops >= 2 or max(per_action.values() or [0]) >= 2 or any(h[1] >= 1 for h in hs)
         tags = ["hops:%d" % hops, "sides:%d" % min(len(obs["sides"]), 9), "trees:%d" % len(prog["trees"])]
+        if prog.get("flaky") is not None:
+            hit = [obs["flaky_calls"][j] for j in prog["flaky"] if j < len(obs["flaky_calls"])]
+            tags += ["flaky:%d" % min(len(hit), 3)] + sorted({"flaky-hit:" + ("remote-" if c[0] in REMOTE_TYPES else "") +
+                                                            ("report" if c[2] == REPORT else (c[1] or "message")) for c in hit})
+        else:
+            tags.append("flaky:none")
         tags += sorted({"via:" + h[0]["via"] for h in hs} | {"form:" + h[0]["form"] for h in hs} | {"join:" + h[0]["join"] for h in hs}
                        | {"dest:" + s["kind"] for s in obs["sides"]})
         # thorough: 500 shuffles for the first 80 programs, 12 for the rest (20 min budget; one parse ~ 10 ms)
@@ -1020,7 +1133,7 @@ def run_handoffs(ctx):
             ctx.broken_tie(name, "model driver rejected the case: %s" % mo["bad"], prog)
             continue
         real = canon_msgs([m for l in obs["logs"] for m in l], lambda m: m.get("task_uuid"))
-        mod = canon_msgs([m for d, m in mo.get("accepted", [])], lambda m: m.get("task_uuid"))
+        mod = canon_msgs([m for d, m in mo.get("accepted", []) if d == 0], lambda m: m.get("task_uuid"))
         if mo.get("outcome") != "ok" or real != mod:
             i = next((i for i, (a, b) in enumerate(zip(real, mod)) if a != b), min(len(real), len(mod)))
             ctx.broken_tie(name, "messages of the threaded run and of the sequentialised model run differ (outcome %s): real %s, model %s" % (
